@@ -330,7 +330,21 @@ def diag_unused_initializer_input_dropped(orig, new):
     return True  # decided from the side record in c03.aggregate (detail text)
 
 
-DIAG = {"unused_initializer_input_dropped": diag_unused_initializer_input_dropped, "flatten_reshape_zero_dim": diag_flatten_zero_dim, "eps_identity": diag_eps_identity, "minmax_initializer_input": diag_minmax_initializer_input,
+def diag_bn_training_mode_dropped(orig, new):
+    """the original has a BatchNormalization with training_mode=1 whose running_mean / running_var outputs are unused; the result
+    has no BatchNormalization in training mode any more (fused away or turned into inference mode)"""
+    def training_bns(mp):
+        used = {i for n in mp.graph.node for i in n.input} | {o.name for o in mp.graph.output}
+        out = []
+        for n in mp.graph.node:
+            if n.op_type == "BatchNormalization" and any(a.name == "training_mode" and a.i == 1 for a in n.attribute):
+                out.append(all((o == "" or o not in used) for o in list(n.output)[1:]))
+        return out
+    a, b = training_bns(orig), training_bns(new)
+    return bool(a) and all(a) and not b
+
+
+DIAG = {"bn_training_mode_dropped": diag_bn_training_mode_dropped, "unused_initializer_input_dropped": diag_unused_initializer_input_dropped, "flatten_reshape_zero_dim": diag_flatten_zero_dim, "eps_identity": diag_eps_identity, "minmax_initializer_input": diag_minmax_initializer_input,
         "widens_accepted_inputs": diag_widens_accepted_inputs}
 
 
